@@ -55,6 +55,7 @@ var clientFSStubs = map[string]string{
 	"os.MkdirAll":      "verifStubMkdirAll",
 	"os.Lstat":         "verifStubLstat",
 	"os.Rename":        "verifStubRename",
+	"os.Link":          "verifStubLink",
 	"(*os.File).Name":  "verifStubFileName",
 	"(*os.File).Write": "verifStubFileWrite",
 	"(*os.File).Chmod": "verifStubFileChmod",
